@@ -445,4 +445,275 @@ Proof.
   rewrite Forall_forall in Hall. rewrite (Hall c Hin) in Hc. discriminate.
 Qed.
 
+(* ---------- non-interference ---------- *)
+
+(* run 1 under any plan whose LAN works, run 2 under a plan where every device is healthy *)
+Definition rel (st1 st2 : state) : Prop :=
+  s_regs st1 = s_regs st2 /\
+  (forall d, tainted st1 d = false -> s_colors st1 d = s_colors st2 d) /\
+  lan_ok st1 /\ (forall d, healthy (s_plan st2) d) /\ s_dirty st1 = false.
+
+Lemma received_one h r : received h [r] = if r_dev r =? h then received_of r else [].
+Proof. unfold received. cbn. rewrite app_nil_r. reflexivity. Qed.
+
+Lemma received_app h t1 t2 : received h (t1 ++ t2) = received h t1 ++ received h t2.
+Proof. unfold received. apply flat_map_app. Qed.
+
+Lemma colors_deliver st p d k pl d' :
+  s_colors (deliver (with_plan st p) d k pl) d' =
+  match k with
+  | KSetColor => if d' =? d then firstn 4 pl else s_colors st d'
+  | KLanSetColorAll => firstn 4 pl
+  | _ => s_colors st d'
+  end.
+Proof. destruct k; reflexivity. Qed.
+
+Lemma tainted_deliver st p d k pl d' : tainted (deliver (with_plan st p) d k pl) d' = tainted st d'.
+Proof. destruct k; reflexivity. Qed.
+
+Lemma tainted_taint st p d d' : tainted (taint (with_plan st p) d) d' = (d' =? d) || tainted st d'.
+Proof. reflexivity. Qed.
+
+Lemma send_rel st1 st2 d k pl :
+  rel st1 st2 -> (wrapped_all k = true \/ d = lan) ->
+  let '(st1', s1, r1) := send sh st1 d k pl in
+  let '(st2', s2, r2) := send sh st2 d k pl in
+  rel st1' st2' /\ s1 <> SRaised /\
+  (s1 = SAnswered -> (forall d', tainted st1' d' = tainted st1 d') /\ s_colors st1' = s_colors (deliver st1 d k pl)) /\
+  (forall h, healthy (s_plan st1) h -> received h [r1] = received h [r2] /\ healthy (s_plan st1') h).
+Proof.
+  intros (Hregs & Hcol & Hlan & Hh2 & Hdirty) Hk.
+  pose proof (send_spec st1 d k pl) as H1. pose proof (send_spec st2 d k pl) as H2.
+  destruct (send sh st1 d k pl) as [[st1' s1] r1]. destruct (send sh st2 d k pl) as [[st2' s2] r2].
+  destruct H1 as (Hd1 & Hk1 & Hp1 & Hst1 & Hr1 & Hdi1 & _ & _ & Hs1 & Hall1).
+  destruct H2 as (Hd2 & Hk2 & Hp2 & Hst2 & Hr2 & _ & _ & _ & Hs2 & Hall2).
+  destruct (Hall2 (Hh2 d k)) as [-> Ho2]. destruct Hs2 as [Hs2 _].
+  assert (Hnr : s1 <> SRaised).
+  { intros ->. destruct Hs1 as (Hw & _). rewrite wrapped_eq in Hw.
+    destruct Hk as [Hk | ->]; [congruence|]. destruct (Hall1 (Hlan k)) as [E _]. discriminate. }
+  assert (Hrec : forall h, healthy (s_plan st1) h -> received h [r1] = received h [r2] /\ healthy (s_plan st1') h).
+  { intros h Hh. split; [|eapply stepped_healthy; eassumption].
+    rewrite !received_one, Hd1, Hd2. destruct (Z.eqb_spec d h) as [->|]; [|reflexivity].
+    destruct (Hall1 (Hh k)) as [_ Ho1]. unfold received_of. rewrite Hk1, Hk2, Hp1, Hp2, Ho1, Ho2. reflexivity. }
+  splits; try assumption.
+  - (* rel *)
+    unfold rel. splits.
+    + congruence.
+    + intros d' Ht. destruct s1.
+      * destruct Hs1 as [E1 _]. rewrite E1, Hs2, !colors_deliver. rewrite E1, tainted_deliver in Ht.
+        destruct k; try (apply Hcol; exact Ht); try reflexivity.
+        destruct (d' =? d); [reflexivity|apply Hcol; exact Ht].
+      * destruct Hs1 as (Hw & E1 & _). rewrite E1 in Ht. rewrite tainted_taint in Ht.
+        apply orb_false_elim in Ht. destruct Ht as [Hne Ht].
+        rewrite E1, Hs2, colors_deliver. cbn [s_colors taint with_plan].
+        rewrite wrapped_eq in Hw.
+        destruct k; try discriminate Hw; try (apply Hcol; exact Ht).
+        rewrite Hne. apply Hcol. exact Ht.
+      * contradiction.
+    + eapply stepped_healthy; eassumption.
+    + intros d'. eapply stepped_healthy; [eassumption|apply Hh2].
+    + congruence.
+  - intros ->. destruct Hs1 as [E1 _]. split.
+    + intros d'. rewrite E1. apply tainted_deliver.
+    + rewrite E1. destruct k; reflexivity.
+Qed.
+
+Definition rel_h (h : dev) (st1 st2 : state) : Prop := rel st1 st2 /\ healthy (s_plan st1) h.
+
+Definition both3 (h : dev) (o1 o2 : outcome3) : Prop :=
+  let '(st1', res1, t1) := o1 in
+  let '(st2', res2, t2) := o2 in
+  rel_h h st1' st2' /\ res1 = Continue /\ res2 = Continue /\ received h t1 = received h t2.
+
+Lemma request_then_rel h st1 st2 d k pl :
+  rel_h h st1 st2 -> (wrapped_all k = true \/ d = lan) ->
+  both3 h (request_then sh st1 d k pl) (request_then sh st2 d k pl).
+Proof.
+  intros [Hrel Hh] Hk. unfold both3, request_then.
+  pose proof (send_rel st1 st2 d k pl Hrel Hk) as H. pose proof (send_spec st2 d k pl) as H2.
+  destruct (send sh st1 d k pl) as [[st1' s1] r1]. destruct (send sh st2 d k pl) as [[st2' s2] r2].
+  destruct H as (Hr & Hnr & _ & Hrec). destruct (Hrec h Hh) as [He Hh'].
+  destruct H2 as (_ & _ & _ & _ & _ & _ & _ & _ & _ & Hall2).
+  assert (s2 = SAnswered) as ->
+    by (destruct Hrel as (_ & _ & _ & Hh2' & _); exact (proj1 (Hall2 (Hh2' d k)))).
+  unfold rel_h. splits; try assumption; try reflexivity.
+  destruct s1; try reflexivity. contradiction.
+Qed.
+
+Lemma each_rel h f1 f2 :
+  (forall st1 st2 w, rel_h h st1 st2 -> both3 h (f1 st1 w) (f2 st2 w)) ->
+  forall ws st1 st2, rel_h h st1 st2 -> both3 h (each f1 st1 ws) (each f2 st2 ws).
+Proof.
+  intros Hf. induction ws as [|w ws IH]; intros st1 st2 Hrel; cbn [each].
+  - unfold both3. auto.
+  - specialize (Hf st1 st2 w Hrel). unfold both3 in Hf.
+    destruct (f1 st1 w) as [[st1' res1] t1]. destruct (f2 st2 w) as [[st2' res2] t2].
+    destruct Hf as (Hrel' & -> & -> & He).
+    specialize (IH st1' st2' Hrel'). unfold both3 in IH |- *.
+    destruct (each f1 st1' ws) as [[st1'' res1'] t1']. destruct (each f2 st2' ws) as [[st2'' res2'] t2'].
+    destruct IH as (? & ? & ? & He'). splits; try assumption.
+    rewrite !received_app, He, He'. reflexivity.
+Qed.
+
+Lemma color_one_rel h dur st1 st2 w :
+  rel_h h st1 st2 -> both3 h (color_one sh dur st1 w) (color_one sh dur st2 w).
+Proof.
+  intros Hrel. unfold color_one. destruct Hrel as [Hr Hh]. pose proof Hr as (Hregs & _). rewrite Hregs.
+  apply request_then_rel; [split; assumption|left; reflexivity].
+Qed.
+
+Lemma power_one_rel h on dur st1 st2 w :
+  rel_h h st1 st2 -> both3 h (power_one sh on dur st1 w) (power_one sh on dur st2 w).
+Proof. intros Hrel. unfold power_one. apply request_then_rel; [assumption|left; reflexivity]. Qed.
+
+(* one command in both runs *)
+Definition step3 (h : dev) (o1 o2 : outcome3) : Prop :=
+  let '(st1', res1, t1) := o1 in
+  let '(st2', res2, t2) := o2 in
+  res1 = res2 /\ received h t1 = received h t2 /\ (s_dirty st1' = false -> rel_h h st1' st2').
+
+Lemma both3_step3 h o1 o2 : both3 h o1 o2 -> step3 h o1 o2.
+Proof.
+  destruct o1 as [[st1 r1] t1], o2 as [[st2 r2] t2]. unfold both3, step3.
+  intros (? & -> & -> & ?). auto.
+Qed.
+
+Lemma step_rel h dir st1 st2 c :
+  rel_h h st1 st2 -> step3 h (step sh dir st1 c) (step sh dir st2 c).
+Proof.
+  intros Hrel. pose proof Hrel as [Hr Hh]. pose proof Hr as (Hregs & Hcol & Hlan & Hh2 & Hdirty).
+  assert (Hskip : step3 h (st1, Continue, []) (st2, Continue, [])) by (unfold step3; auto).
+  destruct c as [v | t dur | t on dur | n first last dur | n rows cols dur | n]; cbn [step].
+  - unfold step3. splits; auto. intros _. split; [|exact Hh]. unfold rel. splits; auto.
+  - destruct t; cbn [resolve].
+    + rewrite Hregs. apply both3_step3, request_then_rel; [exact Hrel|right; reflexivity].
+    + destruct (find_light dir n); [|exact Hskip]. apply both3_step3, each_rel; [|exact Hrel]. intros; apply color_one_rel; assumption.
+    + destruct (members w_group dir n); [|exact Hskip]. apply both3_step3, each_rel; [|exact Hrel]. intros; apply color_one_rel; assumption.
+    + destruct (members w_loc dir n); [|exact Hskip]. apply both3_step3, each_rel; [|exact Hrel]. intros; apply color_one_rel; assumption.
+  - destruct t; cbn [resolve].
+    + apply both3_step3, request_then_rel; [exact Hrel|right; reflexivity].
+    + destruct (find_light dir n); [|exact Hskip]. apply both3_step3, each_rel; [|exact Hrel]. intros; apply power_one_rel; assumption.
+    + destruct (members w_group dir n); [|exact Hskip]. apply both3_step3, each_rel; [|exact Hrel]. intros; apply power_one_rel; assumption.
+    + destruct (members w_loc dir n); [|exact Hskip]. apply both3_step3, each_rel; [|exact Hrel]. intros; apply power_one_rel; assumption.
+  - destruct (find_light dir n) as [w|]; [|exact Hskip].
+    destruct (w_kind w); try exact Hskip.
+    rewrite Hregs. apply both3_step3, request_then_rel; [exact Hrel|left; reflexivity].
+  - assert (Hab : forall r, step3 h (st1, Abort r, []) (st2, Abort r, [])) by (intros r; unfold step3; auto).
+    destruct (find_light dir n) as [w|].
+    + destruct (w_kind w) as [|z|[[hh wd]|]].
+      * destruct (negb (rect_ok _ _ _ _)); [apply Hab|]. destruct (sh_matrix_checked sh); [exact Hskip|apply Hab].
+      * destruct (negb (rect_ok _ _ _ _)); [apply Hab|]. destruct (sh_matrix_checked sh); [exact Hskip|apply Hab].
+      * destruct (negb (rect_ok _ _ _ _)); [apply Hab|].
+        rewrite Hregs. apply both3_step3, request_then_rel; [exact Hrel|left; reflexivity].
+      * apply Hab.
+    + destruct (negb (rect_ok _ _ _ _)); [apply Hab|exact Hskip].
+  - destruct (find_light dir n) as [w|]; [|exact Hskip].
+    destruct (w_kind w); try exact Hskip.
+    pose proof (send_rel st1 st2 (w_dev w) KGetColor [] Hr (or_introl eq_refl)) as H.
+    pose proof (send_spec st2 (w_dev w) KGetColor []) as H2.
+    destruct (send sh st1 (w_dev w) KGetColor []) as [[st1' s1] r1].
+    destruct (send sh st2 (w_dev w) KGetColor []) as [[st2' s2] r2].
+    destruct H as (Hr' & Hnr & Hans & Hrec). destruct (Hrec h Hh) as [He Hh'].
+    destruct H2 as (_ & _ & _ & _ & _ & _ & _ & _ & Hs2 & Hall2).
+    destruct (Hall2 (Hh2 (w_dev w) KGetColor)) as [-> _]. destruct Hs2 as [Hs2 _].
+    pose proof Hr' as (Hregs' & Hcol' & Hlan' & Hh2' & Hdirty').
+    destruct s1.
+    + destruct (Hans eq_refl) as [Ht Hc].
+      destruct (tainted st1 (w_dev w)) eqn:Hta; destruct (tainted st2 (w_dev w)); unfold step3; splits; auto;
+        try (cbn; discriminate);
+        (intros _; split; [|exact Hh']; unfold rel; cbn [s_regs s_colors s_plan s_dirty with_regs soil tainted s_tainted lan_ok];
+         splits; try assumption; apply Hcol'; rewrite Ht; exact Hta).
+    + destruct Hgood as (_ & _ & -> & _). destruct (tainted st2 (w_dev w)); unfold step3; cbn; splits; auto; intros; discriminate.
+    + contradiction.
+Qed.
+
+(* once a `get` has read something unreliable the run stays marked *)
+Definition marked (st : state) : Prop := s_dirty st = true.
+
+Lemma request_then_marked st d k pl :
+  marked st -> let '(st', res, t) := request_then sh st d k pl in marked st' /\ Forall (fun _ => True) t /\ True.
+Proof.
+  intros Hm. unfold request_then. pose proof (send_spec st d k pl) as H.
+  destruct (send sh st d k pl) as [[st' sn] rq]. destruct H as (_ & _ & _ & _ & _ & Hd & _).
+  unfold marked in *. splits; auto. congruence.
+Qed.
+
+Lemma step_marked dir st c :
+  marked st -> let '(st', res, t) := step sh dir st c in marked st' /\ Forall (fun _ => True) t /\ True.
+Proof.
+  intros Hm.
+  assert (Hskip : marked st /\ Forall (fun _ : request => True) [] /\ True) by auto.
+  assert (Heach1 : forall dur ws, let '(st', res, t) := each (color_one sh dur) st ws in marked st' /\ Forall (fun _ => True) t /\ True).
+  { intros dur ws. apply (each_inv marked (fun _ => True) (fun _ => True)); auto.
+    intros st0 w H0. apply request_then_marked. exact H0. }
+  assert (Heach2 : forall on dur ws, let '(st', res, t) := each (power_one sh on dur) st ws in marked st' /\ Forall (fun _ => True) t /\ True).
+  { intros on dur ws. apply (each_inv marked (fun _ => True) (fun _ => True)); auto.
+    intros st0 w H0. apply request_then_marked. exact H0. }
+  destruct c as [v | t dur | t on dur | n first last dur | n rows cols dur | n]; cbn [step].
+  - auto.
+  - destruct t; cbn [resolve]; try (apply request_then_marked; exact Hm).
+    + destruct (find_light dir n); [apply Heach1|exact Hskip].
+    + destruct (members w_group dir n); [apply Heach1|exact Hskip].
+    + destruct (members w_loc dir n); [apply Heach1|exact Hskip].
+  - destruct t; cbn [resolve]; try (apply request_then_marked; exact Hm).
+    + destruct (find_light dir n); [apply Heach2|exact Hskip].
+    + destruct (members w_group dir n); [apply Heach2|exact Hskip].
+    + destruct (members w_loc dir n); [apply Heach2|exact Hskip].
+  - destruct (find_light dir n) as [w|]; [|exact Hskip].
+    destruct (w_kind w); try exact Hskip. apply request_then_marked; exact Hm.
+  - destruct (find_light dir n) as [w|].
+    + destruct (w_kind w) as [|z|[[h wd]|]]; try exact Hskip;
+        destruct (negb (rect_ok _ _ _ _)); try exact Hskip; try (apply request_then_marked; exact Hm);
+        destruct (sh_matrix_checked sh); exact Hskip.
+    + destruct (negb (rect_ok _ _ _ _)); exact Hskip.
+  - destruct (find_light dir n) as [w|]; [|exact Hskip].
+    destruct (w_kind w); try exact Hskip.
+    pose proof (send_spec st (w_dev w) KGetColor []) as H.
+    destruct (send sh st (w_dev w) KGetColor []) as [[st' sn] rq].
+    destruct H as (_ & _ & _ & _ & _ & Hd & _). unfold marked in *.
+    destruct sn; [destruct (tainted st (w_dev w))| destruct (sh_get_fail_ok sh) |]; cbn; splits; auto; congruence.
+Qed.
+
+Lemma run_marked dir cs st :
+  marked st -> let '(st', res, t) := run sh dir st cs in marked st'.
+Proof.
+  intros Hm. pose proof (run_inv marked (fun _ => True) (fun _ => True) dir I (fun st c H => step_marked dir st c H) cs st Hm) as H.
+  destruct (run sh dir st cs) as [[st' res] t]. tauto.
+Qed.
+
+Lemma run_rel h dir cs : forall st1 st2,
+  rel_h h st1 st2 ->
+  let '(st1', res1, t1) := run sh dir st1 cs in
+  let '(st2', res2, t2) := run sh dir st2 cs in
+  s_dirty st1' = false -> res1 = res2 /\ received h t1 = received h t2.
+Proof.
+  induction cs as [|c cs IH]; intros st1 st2 Hrel; cbn [run]; [auto|].
+  pose proof (step_rel h dir st1 st2 c Hrel) as H. unfold step3 in H.
+  destruct (step sh dir st1 c) as [[st1' res1] t1] eqn:E1. destruct (step sh dir st2 c) as [[st2' res2] t2] eqn:E2.
+  destruct H as (<- & He & Hnext).
+  destruct res1 as [|r].
+  - destruct (s_dirty st1') eqn:Hd.
+    + pose proof (run_marked dir cs st1' Hd) as Hm.
+      destruct (run sh dir st1' cs) as [[st1'' res1'] t1']. destruct (run sh dir st2' cs) as [[st2'' res2'] t2'].
+      unfold marked in Hm. intros Hf. congruence.
+    + specialize (IH st1' st2' (Hnext eq_refl)).
+      destruct (run sh dir st1' cs) as [[st1'' res1'] t1']. destruct (run sh dir st2' cs) as [[st2'' res2'] t2'].
+      intros Hf. destruct (IH Hf) as [-> He']. split; [reflexivity|]. rewrite !received_app, He, He'. reflexivity.
+  - auto.
+Qed.
+
+(* THEOREM (non-interference): a device the plan leaves alone receives, under the plan,
+   exactly what it receives in the run where every request is answered -- for every
+   directory, command list, starting registers and device colours, provided broadcasts
+   leave the host and no `get` read an unreliable value (s_dirty = false at the end). *)
+Theorem run_non_interference dir cs (p q : plan) regs colors h :
+  healthy p lan -> (forall d, healthy q d) -> healthy p h ->
+  let '(st1, res1, t1) := run sh dir (init_state p regs colors) cs in
+  let '(st2, res2, t2) := run sh dir (init_state q regs colors) cs in
+  s_dirty st1 = false -> res1 = res2 /\ received h t1 = received h t2.
+Proof.
+  intros Hlan Hq Hh. apply run_rel. split; [|exact Hh].
+  unfold rel, init_state; cbn. splits; auto.
+Qed.
+
 End WithShapes.
